@@ -1,4 +1,5 @@
 import VyxalModel.Lemmas.Truncation
+import VyxalModel.Lemmas.TruncationAt
 import VyxalModel.Proofs.C03
 /-!
 # C04 — omitting trailing closers never changes the parse
@@ -11,17 +12,32 @@ import VyxalModel.Proofs.C03
   like the terminated one;
 * source level (`truncation_invariant_partial`): for programs written with pieces.
 
-**Partial in one named way**: the parser theorem is proved for token lists without `@`
-(function definitions / references).  An unclosed `@name` whose *name* contains an opener is the one
+**Function definitions / references (`@`)**: an unclosed `@name` whose *name* contains an opener is the one
 place where a trailing closer is read as text (`@f[` gives `FunctionCall('f[')` but `@f[];` gives
-`FunctionCall('f[]')`; such a name is outside the documented `\w+`).  Programs with `@` are covered
-by the correspondence and the direct oracle only.
+`FunctionCall('f[]')`; such a name is outside the documented `\w+`).  `atOK n ts` (`Lemmas/TruncationAt.lean`)
+follows the parser's recursion and says exactly that this does not happen: wherever a `@` structure is still
+open at the end of its token list and still in its header, the header has no pending opener of its own.
+`parse_append_closers` / `truncation_invariant` are proved under `atOK`; token lists without `@` satisfy it
+(`atOK_of_noAt`), so the `…_partial` statements (no `@` at all) are corollaries.  The excluded inputs are
+run against the real parser by the harness, which shows the parse really does change there.
 -/
 namespace C04
 open Vy
 
 /-- the closers still pending after `ts`, innermost first -/
 def openClosers (ts : List Token) : List Nat := scan [] ts
+
+/-- **token level, every token list**: appending any prefix of the pending closers does not change the parse,
+    function definitions and references included, as long as no `@` header that is still open at the end of
+    its token list has an opener of its own (`atOK`). -/
+theorem parse_append_closers (n : Nat) (ts : List Token) (par : Parent) (cs : List Nat)
+    (h : cs <+: openClosers ts) (hq : atOK n ts = true) :
+    parse n (ts ++ toks cs) par = parse n ts par :=
+  parse_closers_at n ts par cs h hq
+
+/-- token lists without `@` meet the hypothesis of `parse_append_closers` -/
+theorem atOK_without_at (n : Nat) (ts : List Token) (hq : ∀ t ∈ ts, t.isGen1 ≠ some 64) : atOK n ts = true :=
+  atOK_of_noAt n ts hq
 
 theorem parse_append_closers_partial (n : Nat) (ts : List Token) (par : Parent) (cs : List Nat)
     (h : cs <+: openClosers ts) (hq : ∀ t ∈ ts, t.isGen1 ≠ some 64) :
@@ -80,6 +96,41 @@ theorem truncation_invariant_partial (n : Nat) (ps : List Piece) (par : Parent) 
   rw [hr, lex_pieces _ (by intro p hp; rcases List.mem_append.mp hp with h1 | h1; exact hv p h1; exact hcs p h1),
     lex_pieces ps hv, ht]
   exact parse_closers n _ par cs h hq
+
+open C03 in
+/-- **source level, with `@`**: as `truncation_invariant_partial`, for programs with function definitions and
+    references, under `atOK`. -/
+theorem truncation_invariant (n : Nat) (ps : List Piece) (par : Parent) (cs : List Nat)
+    (hv : ∀ p ∈ ps, p.valid = true)
+    (h : cs <+: openClosers (tokensOf ps)) (hq : atOK n (tokensOf ps) = true) :
+    parse n (tokenise (render ps ++ cs)) par = parse n (tokenise (render ps)) par := by
+  have hc : ∀ c ∈ cs, isCloserCh c = true := fun c hcm => openClosers_are_closers _ c (h.subset hcm)
+  have hcs : ∀ p ∈ cs.map Piece.gen, p.valid = true := by
+    intro p hp
+    obtain ⟨c, hcm, rfl⟩ := List.mem_map.mp hp
+    simp [Piece.valid, closer_lexKind (hc c hcm)]
+  have hr : render ps ++ cs = render (ps ++ cs.map Piece.gen) := by
+    simp [render, List.flatMap_append, List.flatMap_map, Piece.render]
+  have ht1 : ∀ (l : List Nat), tokensOf (l.map Piece.gen) = toks l := by
+    intro l
+    induction l with
+    | nil => rfl
+    | cons c l ih =>
+      simp only [tokensOf, List.map_cons, List.flatMap_cons, Piece.tokens] at ih ⊢
+      rw [ih]; rfl
+  have ht : tokensOf (ps ++ cs.map Piece.gen) = tokensOf ps ++ toks cs := by
+    rw [← ht1 cs]; simp [tokensOf, List.flatMap_append]
+  rw [hr, lex_pieces _ (by intro p hp; rcases List.mem_append.mp hp with h1 | h1; exact hv p h1; exact hcs p h1),
+    lex_pieces ps hv, ht]
+  exact parse_closers_at n _ par cs h hq
+
+/-- non-vacuity of `atOK`: `[@f:a|1(` (a definition past its header, inside a list) meets it with pending
+    closers `) ; ]`; `@f[` (header with an opener of its own) does not. -/
+example : atOK 20 [⟨.general, [91]⟩, ⟨.general, [64]⟩, ⟨.general, [102]⟩, ⟨.general, [58]⟩, ⟨.general, [97]⟩, ⟨.general, [124]⟩,
+      ⟨.number, [49]⟩, ⟨.general, [40]⟩] = true
+    ∧ openClosers [⟨.general, [91]⟩, ⟨.general, [64]⟩, ⟨.general, [102]⟩, ⟨.general, [58]⟩, ⟨.general, [97]⟩, ⟨.general, [124]⟩,
+      ⟨.number, [49]⟩, ⟨.general, [40]⟩] = [41, 59, 93]
+    ∧ atOK 20 [⟨.general, [64]⟩, ⟨.general, [102]⟩, ⟨.general, [91]⟩] = false := by decide
 
 /-- non-vacuity: `[1(λ+` has the pending closers `; ) ]` -/
 example : openClosers [⟨.general, [91]⟩, ⟨.number, [49]⟩, ⟨.general, [40]⟩, ⟨.general, [955]⟩, ⟨.general, [43]⟩]
